@@ -49,6 +49,7 @@ def main():
     ap.add_argument("--also", default="")
     ap.add_argument("--all", action="store_true")
     ap.add_argument("--needs", default="")
+    ap.add_argument("--quick-only", action="store_true", help="do not fall back to the thorough tier when quick misses")
     ap.add_argument("--offset", type=int, default=0, help="stored as <PID>-<i+offset> (second round of changes)")
     a = ap.parse_args()
     readme = open(os.path.join(a.out, "README.md")).read() if os.path.exists(os.path.join(a.out, "README.md")) else ""
@@ -91,7 +92,7 @@ def main():
                 props = [a.pid] + [x for x in ALL if x != a.pid]
             for pid in props:
                 r = run_check(pid, d)
-                if pid == a.pid and r["rc"] != 1:
+                if pid == a.pid and r["rc"] != 1 and not a.quick_only:
                     r2 = run_check(pid, d, "thorough")
                     res[pid + ":thorough"] = r2
                 res[pid] = r
